@@ -59,9 +59,15 @@ def check_model(ctx, fm, idx):
                           {"signature": "qr-selected-rows-rank-deficient", "case": desc, "n_sensors": ns, "ranking": ranking, "index": idx})
             return
         kap = recon.kappa(M)
-        if not kap < recon.KAPPA_MAX:
+        # "up to rounding error proportional to the conditioning of the selected sensor rows": a backward-stable solver leaves a relative
+        # error of about k·eps·κ in the coefficients; budget 2e-14·k·κ (≈ 90 eps·k·κ), judged while that is below 5 %.
+        # (first version: 1e-7·κ with κ ≤ 1e6 – loose enough to hide a solver whose error grows like eps·κ², e.g. normal equations)
+        rel = 2e-14 * kap * max(M.shape)          # ≈ 90·eps·k·κ (the worst clean-tree run over 2 700 judged systems used 1.2 % of it)
+        if not kap < recon.KAPPA_HARD or rel > 5e-2:
             ctx.count("skipped_ill_conditioned")
             continue
+        if kap > 1e5:
+            ctx.count("judged_ill_conditioned(κ>1e5)")
         model.set_number_of_sensors(ns)
         one_d = batch == 1 and rng.random() < 0.5
         meas = Xf[0, S] if one_d else Xf[:, S]
@@ -72,14 +78,15 @@ def check_model(ctx, fm, idx):
                           {"signature": "predict-raises-in-span", "case": desc, "n_sensors": ns, "index": idx})
             return
         want = Xf[0] if one_d else Xf
-        scale = 1 + float(np.max(np.abs(want)))
+        cnorm = max((abs(float(v)) for a in A for v in a), default=0.0)
+        scale = float(np.linalg.norm(B, 2)) * cnorm * np.sqrt(m) + 1e-300
         err = float(np.max(np.abs(P - want))) if P.shape == want.shape else float("inf")
-        ctx.extra["worst_normalised_error"] = max(ctx.extra.get("worst_normalised_error", 0.0), err / (scale * kap))
-        if err > 1e-7 * scale * kap:
+        ctx.extra["worst_normalised_error"] = max(ctx.extra.get("worst_normalised_error", 0.0), err / (scale * rel) if rel else 0.0)
+        if err > scale * rel and not (cnorm == 0 and err == 0):
             ctx.violation("concrete",
                           f"in-span signal not reconstructed: max error {err:.3e} with n_sensors={ns} (κ={kap:.2e}, shape {P.shape} vs {want.shape})",
                           {"signature": "in-span-signal-not-reconstructed", "case": desc, "n_sensors": ns, "coefficients": [[str(v) for v in a] for a in A],
-                           "observed_error": err, "budget": 1e-7 * scale * kap, "ranking": ranking, "index": idx})
+                           "observed_error": err, "budget": scale * rel, "ranking": ranking, "index": idx})
             return
         if ns < n and np.any(Xf != 0):
             ctx.nontriv((desc["basis"], desc["opt"], (n, m), ns, tuple(S)))
@@ -107,6 +114,13 @@ def run(ctx: C.Ctx):
             continue
         ctx.count(f"{fm['desc']['basis']}/{fm['desc']['opt']}")
         check_model(ctx, fm, idx)
+    # a cost-constrained placement confined to a cluster of almost co-located sensors: selected rows ill-conditioned, basis not
+    for idx in range(ctx.scale(25, 300)):
+        fm = recon.gen_model(ctx, rng, want_tall=True, force_cluster=True)
+        if fm is None:
+            continue
+        ctx.count("clustered_placement")
+        check_model(ctx, fm, 2 * 10 ** 6 + idx)
     # training data stored as integers (counts, raw images): Identity keeps that dtype in its basis matrix
     for idx in range(ctx.scale(25, 300)):
         fm = recon.gen_model(ctx, rng, bases=["identity"], opts=["qr"], want_tall=True, force_dtype=rng.choice(["int64", "int32", "uint8"]))
